@@ -200,6 +200,9 @@ def canon(top):
     kinds.append((repr(o), k))
   d["named_objects"] = sorted(kinds)
   d["nets"] = sorted((w, sorted(m)) for w, m in E.canon_nets(top))
+  # the VALUE of every constant driver (construct parameters end up there)
+  d["const_values"] = sorted((repr(getattr(w._dsl, "const", None)), sorted(repr(x) for x in m if not isinstance(x, Const)))
+                             for w, m in top.get_all_value_nets() if isinstance(w, Const))
   d["method_nets"] = sorted((repr(w) if w is not None else None, sorted(repr(x) for x in m))
                             for w, m in top.get_all_method_nets())
   adj = set()
@@ -606,6 +609,13 @@ def gen_template_case(R, c):
   if kind == "ifc" and c.random() < 0.5:
     for _ in range(c.randint(1, 2)):
       params.append([c.choice(["top.st[%d].construct" % c.randrange(n), "top.st*.construct"]), c.choice([0, 5, 9])])
+    if c.random() < 0.5:
+      # a wildcard default followed by a per-index override of a position that is going to be replaced
+      # (or the other way round): precedence must be the same for a replacement as for a fresh build
+      v1, v2 = c.sample([0, 5, 9, 12], 2)
+      params = [["top.st*.construct", v1], ["top.st[%d].construct" % ops[0]["idx"], v2]]
+      if c.random() < 0.3:
+        params.reverse()
   ties = []
   if kind == "ifc" and c.random() < 0.6:
     for i in range(n):
